@@ -256,6 +256,25 @@ pub fn check_tiling(t: &Torrent, o: &Outcome, a: &str, stats: &mut HashMap<&'sta
             _ => (),
         }
     }
+    // quiescent end: a piece the manager assigned to this (unchoking, connected) peer is asked for
+    if !closed {
+        let mut assigned_at: Option<(u64, u64, usize)> = None; // (seq, ms, piece) of the event that made the final assignment
+        let mut cur: Option<usize> = None;
+        for (e, _, after) in o.mgr() {
+            let pi = after.peers.iter().find(|p| p.addr == a).and_then(|p| if p.choked { None } else { p.piece_index });
+            if pi != cur { cur = pi; assigned_at = pi.map(|i| (e.seq, e.ms, i)); }
+        }
+        if let Some((seq, ms, i)) = assigned_at {
+            let asked = o.events.iter().any(|e| e.addr == a && e.seq > seq && matches!(&e.kind, EvKind::Send { msg: Msg::Request(ri, _, _), .. } if *ri as usize == i));
+            let in_progress = ep.as_ref().map(|x| x.piece == i && !x.done).unwrap_or(false);
+            if ms + 2_000 < o.end_ms {
+                *stats.entry("final_assignments_checked").or_default() += 1;
+                if !asked && !in_progress {
+                    return Some(Finding { sig: "C10:assigned-piece-never-requested".into(), what: format!("piece {} ({} bytes) was assigned to {} at t={} ms; no request for it was sent in the remaining {} ms", i, t.piece_len_of(i), a, ms, o.end_ms - ms), at_seq: seq });
+                }
+            }
+        }
+    }
     // quiescent end: every accepted block was followed by a further request while tiles remained,
     // and a fully answered piece was completed
     if let Some(x) = &ep {
